@@ -64,7 +64,8 @@ CellWhys(c) ==
       THEN "P:C07:entropy-is-not-log2-of-the-exact-count" ELSE "ok",
     IF okE /\ r.len >= 1 /\ A = 0 /\ c.ent.k # "ninf"
       THEN "P:C07:entropy-of-unsatisfiable-recipe-not-minus-infinity" ELSE "ok",
-    IF c.mutated = 1 THEN "P:C15:call-changed-public-fields-of-the-recipe" ELSE "ok",
+    IF c.mutated = 1 THEN "P:C15:call-changed-public-fields-of-a-recipe-or-a-slice-the-caller-passed-in" ELSE "ok",
+    IF c.twinDiff = 1 THEN "P:C15:results-differ-from-a-fresh-recipe-with-the-same-field-values-on-the-same-bytes" ELSE "ok",
     IF c.hidden = 1 THEN "P:C14:call-wrote-derived-state-into-the-callers-recipe-value" ELSE "ok",
     \* SuccessProbability = exact fraction count / A^L  (two float32 entropies + exp2: 2^-12 relative)
     IF okE /\ prem /\ r.len >= 1 /\ r.len <= LongLen /\ A >= 1 /\ cnt # <<>>
